@@ -58,18 +58,22 @@ Proof.
   destruct (hd_error (m_chips m)) as [[xy c]|]; reflexivity.
 Qed.
 
+(* the sver command is sent only while the cache is empty *)
+Definition pre_of (c : ctrl) : list pkt := match c_buffer c with Some _ => [] | None => [sver_pkt] end.
+
 Lemma get_buffer_inv : forall c w c1 w1 b,
   ctrl_wf c (w_m w) -> get_buffer c w = Ok (c1, w1, b) ->
   b = m_buffer (w_m w) /\ c_buffer c1 = Some b /\ c_nn c1 = c_nn c /\ w_m w1 = w_m w
-  /\ (extends w w1 [] \/ extends w w1 [sver_pkt]).
+  /\ extends w w1 (pre_of c).
 Proof.
   intros c w c1 w1 b [Hnn Hb] H. unfold get_buffer in H. destruct (c_buffer c) as [b0|] eqn:Ec.
   - inversion H; subst. destruct Hb as [Hb|Hb]; [discriminate|]. inversion Hb; subst.
-    repeat split; try assumption; try reflexivity. left. apply extends_refl.
+    repeat split; try assumption; try reflexivity; unfold pre_of; rewrite Ec; apply extends_refl.
   - apply bind_ok in H. destruct H as [[w2 r] [Hs H]]. fold sver_pkt in Hs.
     apply send_inv in Hs. destruct Hs as (He & Hr & Hne & Hm).
     rewrite mstep_sver in Hr, Hm. destruct (hd_error (m_chips (w_m w))); cbn [fst snd] in *; [|congruence].
-    subst r. inversion H; subst. repeat split; try reflexivity; try assumption. right. exact He.
+    subst r. inversion H; subst. repeat split; try reflexivity; try assumption;
+      unfold pre_of; rewrite Ec; apply He.
 Qed.
 
 Lemma ctrl_wf_buffer : forall c m b, ctrl_wf c m -> b = m_buffer m -> forall n, 0 <= n <= 126 ->
@@ -98,8 +102,7 @@ Lemma read_inv : forall c w x y p addr len c' w' d,
   read c w x y p addr len = Ok (c', w', d) ->
   w_m w' = w_m w /\ c_buffer c' = Some (m_buffer (w_m w)) /\ c_nn c' = c_nn c
   /\ (exists xy ch, dest_chip (w_m w) x y = Some (xy, ch) /\ d = mread (w_m w) (ch_cores ch) addr len)
-  /\ (exists pre q, (pre = [] \/ pre = [sver_pkt]) /\ extends w w' (pre ++ [q]) /\ is_read q
-                    /\ q_x q = x /\ q_y q = y).
+  /\ (exists q, extends w w' (pre_of c ++ [q]) /\ is_read q /\ q_x q = x /\ q_y q = y).
 Proof.
   intros c w x y p addr len c' w' d Hc Hlen H. unfold read in H.
   apply bind_ok in H. destruct H as [[[c1 w1] b] [Hg H]].
@@ -118,17 +121,10 @@ Proof.
   cbn [fst snd] in Hr, Hm3. subst r.
   destruct (zlen (mread (w_m w) (ch_cores ch) addr len) =? len) eqn:Ez; [|discriminate].
   rewrite Z.sub_diag, read_loop_done in Hl. inversion Hl; subst w2 d2. cbn [app].
-  repeat split; try assumption.
+  split; [exact Hm3|]. split; [rewrite Hcb, Hb; reflexivity|]. split; [exact Hcn|]. split.
   - exists xy, ch. split; reflexivity.
-  - destruct Hext as [Hext|Hext].
-    + exists [], (mkPkt x y p SCPCommands_read addr len dt []). repeat split; try reflexivity.
-      * left. reflexivity.
-      * apply (extends_trans _ _ _ _ _ Hext He).
-      * apply (extends_trans _ _ _ _ _ Hext He).
-    + exists [sver_pkt], (mkPkt x y p SCPCommands_read addr len dt []). repeat split; try reflexivity.
-      * right. reflexivity.
-      * apply (extends_trans _ _ _ _ _ Hext He).
-      * apply (extends_trans _ _ _ _ _ Hext He).
+  - exists (mkPkt x y p SCPCommands_read addr len dt []).
+    split; [apply (extends_trans _ _ _ _ _ Hext He)|]. split; [reflexivity|]. split; reflexivity.
 Qed.
 
 (* ---------------------------------------------------------------- the memory the loader reads *)
@@ -179,16 +175,16 @@ Qed.
 
 (* read_struct_field("sv", ..) / read_vcpu_struct_field("cpu_state", ..) *)
 Lemma read_sv_word_inv : forall c w off x y c' w' v,
-  ctrl_wf c (w_m w) -> machine_wf (w_m w) ->
+  ctrl_wf c (w_m w) -> 4 <= m_buffer (w_m w) ->
   read_sv_word c w off x y = Ok (c', w', v) ->
   w_m w' = w_m w /\ c_buffer c' = Some (m_buffer (w_m w)) /\ c_nn c' = c_nn c
   /\ (exists xy ch, dest_chip (w_m w) x y = Some (xy, ch) /\ of_le32 (mread (w_m w) (ch_cores ch) (sv_base + off) 4) = Some v)
-  /\ (exists pre q, (pre = [] \/ pre = [sver_pkt]) /\ extends w w' (pre ++ [q]) /\ is_read q /\ q_x q = x /\ q_y q = y).
+  /\ (exists q, extends w w' (pre_of c ++ [q]) /\ is_read q /\ q_x q = x /\ q_y q = y).
 Proof.
   intros c w off x y c' w' v Hc Hm H. unfold read_sv_word in H.
   apply bind_ok in H. destruct H as [[[c1 w1] d] [Hr H]]. cbn [fst snd] in H.
-  destruct Hm as (_ & _ & _ & _ & _ & Hbuf & _).
   apply read_inv in Hr; [|exact Hc|lia]. destruct Hr as (Hm1 & Hcb & Hcn & (xy & ch & Hd & Hdata) & Hq).
   destruct (of_le32 d) as [v0|] eqn:Ev; [|discriminate]. inversion H; subst.
-  repeat split; try assumption. exists xy, ch. split; [exact Hd|exact Ev].
+  split; [exact Hm1|]. split; [exact Hcb|]. split; [exact Hcn|]. split; [|exact Hq].
+  exists xy, ch. split; [exact Hd|exact Ev].
 Qed.
